@@ -314,6 +314,21 @@ func (h *harness) allSigned() bool {
 // candidate derives a candidate successor of the machine's current state.
 // kind: "valid", "final", "mut", "multi".
 func (h *harness) candidate(st *kernel.Step) (gen.Succ, bool) {
+	c, ok := h.candidateRaw(st)
+	if ok && c.State != nil && gen.BalanceOverLimit(&c.State.Allocation) {
+		// a balance beyond the 128 bytes of its encoding is outside the documented
+		// limits (the machine stages such a state and then cannot sign it): the
+		// candidate only advances the version instead
+		cur := h.m.CurrentTX().State
+		s := gen.CloneState(cur)
+		s.Version = cur.Version + 1
+		h.res.Count("probe.candidate-over-size-limit-replaced", 1)
+		return gen.Succ{State: s, Actor: c.Actor, Valid: true, Mut: "version-only"}, true
+	}
+	return c, ok
+}
+
+func (h *harness) candidateRaw(st *kernel.Step) (gen.Succ, bool) {
 	cur := h.m.CurrentTX().State
 	if cur == nil {
 		return gen.Succ{}, false
